@@ -342,6 +342,8 @@ def b_int(ex, e, st):
             return specz3.digit_of(v, 0)
         return specz3.seq_pv(v, iv(0), v.n, 10)
     if isinstance(v, FloatV):
+        if ex.c.get("opaque_floats"):
+            return fresh("int_of_float")          # some integer (the float is finite: listed assumption)
         from pyvc import library
         return library.int_of_float(ex, st, v, e.lineno)
     return toint(v)
@@ -362,6 +364,10 @@ def dec_str(ex, st, x, line):
     if sv.check() == z3.unsat:
         out1.intval = x            # the integer whose decimal rendering this one-character string is
         return out1
+    if ex.c.get("opaque_floats"):
+        out = fresh_seq("decstr", "str", "char")          # the rendering of an integer of unknown sign: some non-empty string (only used for display)
+        st.assume(out.n >= 1)
+        return out
     ex.prove(st, f"str-of-nonnegative-int:{ex.ordinal('str')}", x >= 0, line)
     st.assume(x >= 0)
     # CPython: str(int) raises ValueError beyond 4300 digits
@@ -445,7 +451,12 @@ def map_index(ex, st, txt, src, line):
 
 
 def b_divmod(ex, e, st):
-    a, b = toint(ex.ev(e.args[0], st)), toint(ex.ev(e.args[1], st))
+    a0 = ex.ev(e.args[0], st)
+    if isinstance(a0, FloatV) and ex.c.get("opaque_floats"):
+        b0 = toint(ex.ev(e.args[1], st))
+        ex.may_raise(st, "ZeroDivisionError", b0 == 0, f"divmod:{ex.ordinal('div')}", e.lineno)
+        return Tup([FloatV(fresh("fdiv", z3.RealSort())), FloatV(fresh("fmod", z3.RealSort()))])
+    a, b = toint(a0), toint(ex.ev(e.args[1], st))
     ex.may_raise(st, "ZeroDivisionError", b == 0, f"divmod:{ex.ordinal('div')}", e.lineno)
     ex.prove(st, f"divisor-positive:{ex.ordinal('div')}", b > 0, e.lineno)
     st.assume(b > 0)
@@ -588,6 +599,9 @@ BUILTINS = {"set": b_set, "zip": b_zip, "sorted": b_sorted, "filter": b_filter, 
 def method(ex, e, st):
     f = e.func
     attr = f.attr
+    if isinstance(f.value, ast.Name) and f.value.id == "datetime" and "datetime" not in st.env and attr == "now" and not e.args:
+        ex.trusted_used.add("datetime.now() returns a datetime; the difference of two datetimes has a finite total_seconds()")
+        return Obj("datetime", {"__id__": fresh("now")})
     if isinstance(f.value, ast.Name) and f.value.id == "random" and "random" not in st.env:
         from pyvc import library
         return library.random_method(ex, e, st, attr)
@@ -607,6 +621,8 @@ def method(ex, e, st):
     from pyvc.sym import DictV as _DictV
     if isinstance(base, _DictV) and attr in ("items", "keys", "values"):
         return ("dictview", attr, base)
+    if isinstance(base, Obj) and base.cls == "timedelta" and attr == "total_seconds" and not e.args:
+        return FloatV(fresh("seconds", z3.RealSort()))
     if isinstance(base, Obj):
         from pyvc import library
         return library.obj_method(ex, e, st, base, attr)
